@@ -3,6 +3,7 @@ package main
 import (
 	"encoding/json"
 	"flag"
+	"path/filepath"
 	"fmt"
 	"os"
 	"sort"
@@ -142,7 +143,8 @@ func cmdReplay(args []string) {
 		fmt.Fprintln(os.Stderr, "usage: vcheck replay <replay.json>")
 		os.Exit(2)
 	}
-	data, err := os.ReadFile(fs.Arg(0))
+	rpath, _ := filepath.Abs(fs.Arg(0))
+	data, err := os.ReadFile(rpath)
 	if err != nil {
 		fmt.Fprintln(os.Stderr, err)
 		os.Exit(2)
@@ -199,7 +201,7 @@ func cmdReplay(args []string) {
 		tmp, _ := os.MkdirTemp("", "vcheck-replay-")
 		defer os.RemoveAll(tmp)
 		nat := &nativeSide{repo: *repo, verif: *verif, tmp: tmp, bins: map[string]string{}, errs: map[string]string{}}
-		nr, err := nat.runFile(rf.Package, rf.Harness, fs.Arg(0))
+		nr, err := nat.runFile(rf.Package, rf.Harness, rpath)
 		if err != nil {
 			fmt.Println("native: failed to run:", err)
 		} else {
